@@ -455,9 +455,75 @@ class FuncAnalysis:
             td = self._def_term(d, depth)
             if d.kind == "assign" and d.path == () and d.node is not None:
                 td = self._apply_stores(td, name, d, at, depth)
+                if isinstance(d.payload, (ast.List, ast.ListComp)) or (isinstance(d.payload, ast.Call) and isinstance(d.payload.func, ast.Name) and d.payload.func.id == "list"):
+                    td = self._apply_growth(td, name, d, at, depth)
             alts.append(td)
         t = phi(alts)
         return self._refine(t, e, name)
+
+    def _apply_growth(self, base: Term, name: str, d: "Def", at: CNode, depth: int) -> Term:
+        """`xs = [..]` followed by `for v in it: [if c:] xs.append(e)` loops that have completed before `at`
+        is rendered like the equivalent comprehension(s): base ++ [e for v in it if c] ++ .."""
+        cfg = self.cfg
+        sites = []
+        for n in self._own_nodes():
+            if isinstance(n, ast.Call) and isinstance(n.func, ast.Attribute) and isinstance(n.func.value, ast.Name) and n.func.value.id == name:
+                if n.func.attr == "append" and len(n.args) == 1:
+                    sites.append(n)
+                elif n.func.attr in ("extend", "insert", "remove", "pop", "clear", "sort", "reverse"):
+                    return base
+            elif isinstance(n, ast.AugAssign) and isinstance(n.target, ast.Name) and n.target.id == name:
+                return base
+            elif isinstance(n, ast.Subscript) and isinstance(n.ctx, (ast.Store, ast.Del)) and isinstance(n.value, ast.Name) and n.value.id == name:
+                return base
+        parts = []
+        for c in sorted(sites, key=lambda x: (x.lineno, x.col_offset)):
+            if not cfg.has_node(c):
+                return base
+            cn = cfg.node_of(c)
+            if self._rd_in.get(cn, {}).get(name) != frozenset([d]):
+                continue
+            loop = None
+            for a in ancestors(c):
+                if isinstance(a, (ast.For,)):
+                    loop = a
+                    break
+                if isinstance(a, (ast.While, ast.FunctionDef, ast.AsyncFunctionDef, ast.Lambda, ast.ListComp, ast.GeneratorExp)):
+                    break
+            if cn is at:
+                continue
+            if loop is None:
+                if cfg.dominates(d.node, cn) and self._on_all_paths(d.node, cn, at):
+                    parts.append(("list", (self._t(c.args[0], cn, {}, depth),)))
+                    continue
+                return base
+            ln = cfg.node_of(loop)
+            inside_at = at.stmt is not None and any(x is at.stmt for x in ast.walk(loop)) and at is not ln
+            if inside_at or not (cfg.dominates(d.node, ln) and cfg.dominates(ln, at)):
+                if inside_at:
+                    continue
+                return base
+            if any(isinstance(x, (ast.Break, ast.Return)) for x in ast.walk(loop)):
+                return base
+            head_keys = {cfg.atom_key(a) for a in cfg.facts_after(ln)} | {cfg.atom_key(a) for a in cfg.facts_at(ln)}
+            conds = []
+            for fx, pol in cfg.facts_at(cn):
+                if cfg.atom_key((fx, pol)) in head_keys:
+                    continue
+                try:
+                    ct = self._t(fx, cfg.node_of(fx) if cfg.has_node(fx) else cn, {}, depth)
+                except AnalysisError:
+                    ct = ("top", "cond")
+                conds.append(ct if pol else ("op", "Not", (ct,)))
+            it = self._t(loop.iter, ln, {}, depth)
+            parts.append(("comp", "ListComp", self._t(c.args[0], cn, {}, depth), ((it, tuple(conds)),)))
+        t = base
+        for p in parts:
+            if t == ("list", ()):
+                t = p
+            else:
+                t = ("concat", t, p)
+        return t
 
     def _on_all_paths(self, a: CNode, m: CNode, b: CNode) -> bool:
         """every path a -> b passes through m."""
@@ -531,20 +597,29 @@ class FuncAnalysis:
         if t[0] == "upd":
             b = self._refine(t[1], e, name)
             return t if b is t[1] else ("upd", b, t[2])
+        if t[0] == "ifexp" and (("const", None) in (t[2], t[3])):
+            if self._known_not_none(e, name):
+                return t[3] if t[2] == ("const", None) else t[2]
+            return t
         if t[0] != "phi" or ("const", None) not in t[1]:
             return t
+        if self._known_not_none(e, name):
+            return phi([a for a in t[1] if a != ("const", None)])
+        return t
+
+    def _known_not_none(self, e: ast.AST, name: str) -> bool:
         try:
             facts = self.cfg.expr_facts(e)
         except AnalysisError:
-            return t
+            return False
         for fx, pol in facts:
             if isinstance(fx, ast.Compare) and len(fx.ops) == 1 and isinstance(fx.left, ast.Name) and fx.left.id == name:
                 c = fx.comparators[0]
                 if isinstance(c, ast.Constant) and c.value is None:
                     notnone = (isinstance(fx.ops[0], ast.IsNot) and pol) or (isinstance(fx.ops[0], ast.Is) and not pol)
                     if notnone:
-                        return phi([a for a in t[1] if a != ("const", None)])
-        return t
+                        return True
+        return False
 
     def _def_term(self, d: Def, depth: int) -> Term:
         if d.kind == "param":
@@ -916,6 +991,49 @@ class FuncAnalysis:
     def return_term(self, depth: int = 0) -> Optional[Term]:
         if self._ret_cache is not None:
             return self._ret_cache
+        try:
+            st = self._structured(list(self.fi.node.body) if not isinstance(self.fi.node, ast.Lambda) else [], depth, 0)
+        except _GiveUp:
+            st = None
+        if st is not None and st != _RAISE and len(self.returns()) >= 1 and not isinstance(self.fi.node, ast.Lambda):
+            if not contains(st, lambda s: s == ("rec",)):
+                self._ret_cache = st
+            return st
+        return self._phi_return_term(depth)
+
+    def _structured(self, stmts: List[ast.stmt], depth: int, budget: int) -> Term:
+        """decision-tree rendering of the function's result: if/elif/else and early returns become
+        ('ifexp', cond, a, b); raising branches disappear (they do not produce a value)."""
+        if budget > 400:
+            raise _GiveUp()
+        for i, s in enumerate(stmts):
+            rest = stmts[i + 1:]
+            if isinstance(s, ast.Return):
+                n = self.cfg.node_of(s)
+                return ("const", None) if s.value is None else self._t(s.value, n, {}, depth)
+            if isinstance(s, ast.Raise):
+                return _RAISE
+            if isinstance(s, ast.If):
+                if not _has_exit(s):
+                    continue
+                t_exit, e_exit = _always_exits(s.body), _always_exits(s.orelse)
+                a = self._structured(list(s.body) + ([] if t_exit else rest), depth, budget + 1)
+                b = self._structured(list(s.orelse) + ([] if e_exit else rest), depth, budget + 1)
+                cond = self._t(s.test, self.cfg.node_of(s), {}, depth)
+                if a == _RAISE:
+                    return b
+                if b == _RAISE:
+                    return a
+                if a == b:
+                    return a
+                return ("ifexp", cond, a, b)
+            if isinstance(s, (ast.For, ast.AsyncFor, ast.While, ast.With, ast.AsyncWith, ast.Try)) or (hasattr(ast, "Match") and isinstance(s, ast.Match)):
+                if _has_exit(s):
+                    raise _GiveUp()
+                continue
+        return ("const", None)
+
+    def _phi_return_term(self, depth: int = 0) -> Optional[Term]:
         alts = []
         for s, n in self.returns():
             alts.append(("const", None) if s.value is None else self._t(s.value, n, {}, depth))
@@ -930,6 +1048,30 @@ class FuncAnalysis:
         return t
 
 
+class _GiveUp(Exception):
+    pass
+
+
+_RAISE = ("raise",)
+
+
+def _has_exit(s: ast.AST) -> bool:
+    for x in ast.walk(s):
+        if isinstance(x, (ast.Return, ast.Raise)):
+            # not inside a nested def
+            return True
+    return False
+
+
+def _always_exits(stmts) -> bool:
+    for s in stmts:
+        if isinstance(s, (ast.Return, ast.Raise)):
+            return True
+        if isinstance(s, ast.If) and s.orelse and _always_exits(s.body) and _always_exits(s.orelse):
+            return True
+    return False
+
+
 def _inside(n: ast.AST, root: ast.AST) -> bool:
     return any(x is n for x in ast.walk(root))
 
@@ -939,7 +1081,22 @@ def _site(e: ast.AST) -> Tuple[int, int]:
 
 
 def unphi_terms(t: Term) -> List[Term]:
-    return list(t[1]) if t[0] == "phi" else [t]
+    """value alternatives of a term: Phi alternatives and both arms of conditional expressions, flattened."""
+    if t[0] == "phi":
+        out: List[Term] = []
+        for a in t[1]:
+            for x in unphi_terms(a):
+                if x not in out:
+                    out.append(x)
+        return out
+    if t[0] == "ifexp":
+        out = []
+        for a in (t[2], t[3]):
+            for x in unphi_terms(a):
+                if x not in out:
+                    out.append(x)
+        return out
+    return [t]
 
 
 def walk_all(t: Any):
